@@ -321,4 +321,18 @@ Proof.
   destruct Ha as [Ea|[Ea|Ea]]; rewrite Ea; cbn [get_cipher_type bind]; eexists; (split; [reflexivity|]);
     unfold cur_key, cur_iv, cur_seq, switch_ready; cbn; repeat split; auto; try discriminate; tauto.
 Qed.
+
+(* TLS 1.3 middlebox compatibility (RFC 8446 D.4): a dummy ChangeCipherSpec record anywhere in the connection only sets a flag that the
+   TLS 1.3 path never reads -- the session's decryptor, buffers and synchronisation with both senders are untouched, the record is
+   exported as metadata only *)
+Lemma tls13_ccs_inert s stc sts n (srv : bool) body : Inv13 s stc sts n ->
+  exists s', handle_tls_record C tbl parts keylog s (mk_record 20 version body) srv = Ok (s', [meta_entry (mk_record 20 version body) srv]) /\
+             Inv13 s' stc sts n /\ hs_buf s' true = hs_buf s true /\ hs_buf s' false = hs_buf s false /\ ts_decryptor s' = ts_decryptor s.
+Proof.
+  intros (Hcan & Hv & d & Hd & Hrest).
+  unfold handle_tls_record, mk_record. cbn [r_type]. change (20 =? 22) with false. change (20 =? 23) with false. change (20 =? 21) with false. change (20 =? 20) with true. cbv iota.
+  eexists. split; [reflexivity|]. split; [|repeat split; reflexivity].
+  unfold Inv13. cbn [upd ts_can_decrypt ts_version ts_decryptor]. split; [exact Hcan|]. split; [exact Hv|]. exists d. split; [exact Hd|exact Hrest].
+Qed.
+
 End Session13.
